@@ -312,10 +312,13 @@ Proof.
   specialize (H c Hc). rewrite Ho, E in H. discriminate.
 Qed.
 
-(* the open leaks are written cells that are classified Leak *)
-Lemma open_leaks_are_leaks : open_leaks <> [] /\
+(* the open leaks (none today) are written cells that are classified Leak: the list cannot hide a non-leak *)
+Lemma open_leaks_are_leaks :
   forallb (fun c => mem_s c ws_table && klass_eqb (kl_table c) Leak) open_leaks = true.
-Proof. split; [discriminate|vm_compute; reflexivity]. Qed.
+Proof. vm_compute. reflexivity. Qed.
+
+Lemma table_no_leak_full : forall c, In c ws_table -> kl_table c <> Leak.
+Proof. intros c Hc. apply table_no_leak; [exact Hc|reflexivity]. Qed.
 
 (* source translation: the regenerated __init__ / setup_render assignments reset every attribute that a renderer
    method reads before writing, for every prior state (the state stays a variable: the computation only goes
